@@ -70,6 +70,7 @@ def gen_history(rng, t, enc, nops):
     ops = []
     ptr = 0           # the field's I/O pointer as gd_seek(3)/gd_putdata(3) define it (file coordinates)
     written = []      # for text: which samples are real (non-pad) values
+    sought = None     # target of the most recent read-mode gd_seek, until the next write
     for _ in range(nops):
         r = rng.random()
         if r < 0.62 or not a:
@@ -98,6 +99,9 @@ def gen_history(rng, t, enc, nops):
                     p = max(0, L - rng.randint(1, 3))
                 else:
                     p = rng.randrange(L)
+            if sought is not None and rng.random() < 0.5:
+                p = sought          # a write exactly where the last read-mode gd_seek went
+            sought = None
             here = False
             if enc != "text" and a and ptr is not None and rng.random() < 0.15:      # (a field without a data file has no I/O position yet)
                 p = ptr; here = True      # GD_HERE: the write lands at the I/O pointer
@@ -157,6 +161,7 @@ def gen_history(rng, t, enc, nops):
             # gd_seek in read mode (GD_SEEK_SET), also past the end of the field: moves the I/O pointer, changes no data
             kx = rng.choice([rng.randint(0, len(a)), len(a), len(a) + rng.randint(1, 6)])
             ops.append(("K", kx, len(a)))
+            sought = kx
             ptr = kx if kx <= len(a) else None      # past the end the resulting position is encoding specific (gd_seek(3))
         elif r < 0.88:
             ops.append(("F",)); ptr = 0      # the raw file is closed; it reopens at its beginning
